@@ -1,4 +1,4 @@
-import GrassProofs.Lemmas.SerializeTree
+import GrassProofs.Lemmas.SerializeReadTree
 /-
   C05 — Output is well-formed, Sass-free CSS and a fixed point of the compiler.
 
@@ -17,9 +17,9 @@ import GrassProofs.Lemmas.SerializeTree
       (4) invisible nodes write nothing; both loops skip the same nodes — PROVED (C05_no_invisible_output_*)
       (5) sassFree out (no placeholder / & / $var / #{ / Sass at-rule outside strings and comments)
                                                             — NOT PROVED here (checked on grass's output by the driver)
-      (6) read (serialize st cs t) = canon t, hence recompiling reproduces the rules (fixed point)
-                                                            — NOT PROVED (checked on the real parser; C06_style_equiv_model_partial
-                                                              proves the read-back for declaration-only trees)
+      (6) readTree (serialize st cs t) = some (canon st t): print → read round trip of the model
+                                                            — PROVED (C05_read_roundtrip) for every readable tree;
+          the fixed point of grass's REAL parser is checked (recompilation), not proved.
 -/
 namespace Grass.Serialize
 
@@ -126,5 +126,35 @@ example : selTexts [⟨false, [.compound [.text ['a']]]⟩, ⟨false, [.compound
       = [['a'], ['b']] ∧
     selectorOut .expanded [⟨false, [.compound [.text ['a']]]⟩,
       ⟨false, [.compound [.placeholder ['p']], .compound [.text ['b']]]⟩] = ['a'] := by decide +kernel
+
+/-- print → read round trip for the WHOLE serialised subset (style rules with selector lists,
+    declarations with quoted strings and space/comma/slash lists, custom properties, @media,
+    @supports, unknown at-rules with and without block, @keyframes, @import, comments): the Lean
+    reader `readTree` returns exactly the canonical tree `canonTop st t` of the model tree — for both
+    styles, with or without the charset header.
+    Guards (decidable, evaluated by the driver for every generated tree): `treeReadable st t` — every
+    header / declaration text, as printed in style `st`, is flat (no `{ } ;` outside strings, comments
+    and escapes; ends outside them) and starts with neither whitespace nor `/`; comments are
+    `/* … */` tokens whose loudness shows in the printed text — and the body does not itself start
+    with a BOM / `@charset` line.  (`treeOk` alone is not enough: a selector text `a{}b` is balanced
+    but cannot be told from a block.) -/
+theorem C05_read_roundtrip (st : Style) (cs : Bool) (t : List Stmt) (h : treeReadable st t = true)
+    (hg : hasCharsetOrBom (serialize st false t) = false) :
+    readTree (serialize st cs t) = some (canonTop st t) := readTree_serialize st cs t h hg
+
+example : treeReadable .expanded
+    [.media false [⟨none, some ['x'], [], true⟩]
+      (.cons (.rule true [⟨false, [.compound [.text ['a']]]⟩, ⟨true, [.compound [.text ['b']], .comb '>', .compound [.text ['c']]]⟩]
+        (.cons (.decl ['k'] false (.list .comma [.quoted ['{', ';', '"'], .raw ['v']]))
+          (.cons (.comment ['/', '*', '!', 'x', '*', '/'] 4) .nil))) .nil),
+     .import ['"', 'u', '"'] none] = true := by decide +kernel
+
+/-- Fixed point of print ∘ read for the model: the text determines the canonical tree, and the
+    canonical tree determines what is read from any other serialisation of the same tree — reading
+    the output, with or without header, in the same style always gives the same tree. -/
+theorem C05_fixed_point_model (st : Style) (cs cs' : Bool) (t : List Stmt) (h : treeReadable st t = true)
+    (hg : hasCharsetOrBom (serialize st false t) = false) :
+    readTree (serialize st cs t) = readTree (serialize st cs' t) := by
+  rw [readTree_serialize st cs t h hg, readTree_serialize st cs' t h hg]
 
 end Grass.Serialize
